@@ -192,6 +192,19 @@ def run(ctx):
             for h in names:
                 H[h].hedge(X)
                 H[h].hedge(X[: (X.size // 6) * 6].reshape(6, -1))
+            # the same degrees in other memory layouts (what slicing, transposing and broadcasting hand to a hedge)
+            M = X[:120].reshape(8, 15)
+            row = np.array(X[:7])
+            row.flags.writeable = False
+            layouts = {
+                "transposed": M.T, "fortran order": np.asfortranarray(M), "strided": X[:200:3], "reversed": X[:64][::-1], "column": M[:, :1],
+                "3-D with swapped axes": X[:60].reshape(3, 4, 5).swapaxes(0, 2), "read-only row broadcast over a batch": np.broadcast_to(row, (5, 7)),
+                "read-only": row, "matrix slice": M[1:6:2, ::4],
+            }  # fmt: skip
+            for what, A in layouts.items():
+                for h in names:
+                    H[h].hedge(A)
+                ctx.hit("layout:" + what)
             inverse_pairs(ctx, fl, X)
             ctx.sample("random", {"x": xs[:5], "extremely": H["extremely"].hedge(np.array(xs[:5]))})
         # the same hedge instance given the same array object again after the array was refilled in place (stale results, aliasing)
@@ -213,7 +226,7 @@ def run(ctx):
     ctx.exhaustive = True
     ctx.extra["exhaustive_space"] = f"all x = k/2^{m}, k = 0..2^{m}, for each of the 6 hedges (plus non-exhaustive random doubles)"
     for h in names:
-        ctx.require(f"hook:{CLASSES[h]}.hedge", "event:buffer refilled in place")
+        ctx.require(f"hook:{CLASSES[h]}.hedge", "event:buffer refilled in place", "layout:transposed", "layout:read-only row broadcast over a batch")
     for h in ("extremely", "seldom"):
         for p in ("x<0.5", "x==0.5", "x>0.5"):
             ctx.require(f"piece:{h}:{p}")
